@@ -193,6 +193,7 @@ def writer_integers(prog, topo):
         "self.equilibrium.double_null_type": topo.double_null_type if topo.double_null_type else "none",
         "eq_region0.separatrix_radial_index": ctx.const(getattr(topo, "sep_index", 1)),
         "eq_region0.kind": regs[order[0]]["kind"],
+        "self.user_options.y_boundary_guards": g,
     }
     ex = WriterEx(ctx, mod, facts)
     env = {}
@@ -666,7 +667,7 @@ def r5_r6(prog, rep, topos):
                 if isinstance(x, ast.If):
                     if not _only_name_assigns(x):
                         return False
-                elif not (isinstance(x, ast.Assign) and isinstance(x.targets[0], ast.Name) and isinstance(x.value, (ast.Name, ast.Constant, ast.BinOp, ast.IfExp))):
+                elif not (isinstance(x, ast.Assign) and isinstance(x.targets[0], ast.Name) and isinstance(x.value, (ast.Name, ast.Constant, ast.BinOp, ast.IfExp, ast.Attribute))):
                     return False
         return True
     for st in body:
